@@ -155,6 +155,7 @@ package protocol
 //@   assert @C17 before append#3: qok && 0 <= qk && qk < qn && i == qpos[qk] ==> 0 <= qx[qk] && qx[qk] <= 255
 //@   assert @C17 before append#3: qok && 0 <= qk && qk < qn && i == qpos[qk] ==> 0 <= x1 && x1 < 16 && 0 <= x2 && x2 < 16 && x1 * 16 + x2 == qx[qk]
 //@   ensures @C03 extends(r, dst) && spareOnly(dst)
+//@   ensures sameArray(r, dst) || fresh(r)
 //@   ensures @C17 qok ==> len(r) == len(dst) + qn && forallT(k, 0, qn, qx[k], r[len(dst) + k] == qx[k])
 //@   loop 0:
 //@     invariant 0 <= i && i <= len(src)
@@ -191,13 +192,30 @@ package protocol
 //@   modifies mem
 //@   allocates
 
+// C17 (segmentation of an argument list): an argument ends at the first '&'; inside it the first '=' separates
+// key and value; what is handed to the percent decoder is exactly those pieces. argFree(b, lo, hi): no '=' and
+// no '&' in b[lo:hi]; ampFree: no '&'.
+//@ macro argFree(b, lo, hi) = forall(j, lo, hi, b[j] != '=' && b[j] != '&')
+//@ macro ampFree(b, lo, hi) = forall(j, lo, hi, b[j] != '&')
 //@ func argsScanner.next(s, kv) r
-//@   props C03
+//@   props C03, C17
 //@   requires kv != nil
-//@   modifies kv.key, kv.value, kv.noValue, s.b, mem
+//@   requires @C17 !mayAlias(kv.key, s.b) && !mayAlias(kv.value, s.b)
+//@   modifies kv.key, kv.value, kv.noValue, s.b, mem, qok
+//@   ghostset-at-entry qok = false
 //@   allocates
+//@   replay-import net/url
+//@   replay-go al := []byte("ab=&+%41"); var rec func(x []byte, d int); rec = func(x []byte, d int) { if want, err := url.ParseQuery(string(x)); err == nil { var a Args; a.ParseBytes(x); n := 0; for k, vs := range want { got := a.PeekAll(k); if len(got) != len(vs) { fmt.Printf("VCGO-VIOLATED query %q: key %q has %d value(s) in Args.ParseBytes and %d in net/url\n", x, k, len(got), len(vs)); panic("stop") }; for i := range vs { if string(got[i]) != vs[i] { fmt.Printf("VCGO-VIOLATED query %q: key %q value %d is %q in Args.ParseBytes and %q in net/url\n", x, k, i, got[i], vs[i]); panic("stop") } }; n += len(vs) }; if a.Len() != n && !(len(want[""]) > 0) { fmt.Printf("VCGO-VIOLATED query %q: %d arguments in Args.ParseBytes, %d in net/url\n", x, a.Len(), n); panic("stop") } }; if d == 0 { return }; for _, c := range al { rec(append(append([]byte{}, x...), c), d-1) } }; rec(nil, 5)
+//@   assert @C17 before decodeArgAppend#0: s.b[i] == '=' && argFree(s.b, 0, i) && sameSlice(arg1, s.b[:i])
+//@   assert @C17 before decodeArgAppend#1: s.b[i] == '&' && argFree(s.b, 0, i) && sameSlice(arg1, s.b[:i])
+//@   assert @C17 before decodeArgAppend#2: s.b[i] == '&' && 1 <= k && k <= i && s.b[k-1] == '=' && argFree(s.b, 0, k - 1) && ampFree(s.b, k - 1, i) && sameSlice(arg1, s.b[k:i])
+//@   assert @C17 before decodeArgAppend#3: argFree(s.b, 0, len(s.b)) && sameSlice(arg1, s.b)
+//@   assert @C17 before decodeArgAppend#4: 1 <= k && k <= len(s.b) && s.b[k-1] == '=' && argFree(s.b, 0, k - 1) && ampFree(s.b, k - 1, len(s.b)) && sameSlice(arg1, s.b[k:])
 //@   loop 0:
 //@     invariant 0 <= k && k <= rangeindex + 1
+//@     invariant @C17 sameSlice(s.b, old(s.b)) && !mayAlias(kv.key, s.b) && !mayAlias(kv.value, s.b)
+//@     invariant @C17 isKey ==> argFree(s.b, 0, rangeindex + 1)
+//@     invariant @C17 !isKey ==> 1 <= k && s.b[k-1] == '=' && argFree(s.b, 0, k - 1) && ampFree(s.b, k - 1, rangeindex + 1)
 
 //@ func cookieScanner.next(s, kv) r
 //@   props C03
